@@ -1481,6 +1481,31 @@ Example m_T_example :
   m_T exM = RMat (mkM true [[Var "a00"; Var "a10"]; [Var "a01"; Var "a11"]; [Var "a02"; Var "a12"]]%string).
 Proof. reflexivity. Qed.
 
+(* ---- why the hypotheses are there (sharpness) ---- *)
+(* [kind_wf] in v_sum_correct: a KVar-tagged object whose elements are not Var nodes loses them *)
+Example v_sum_needs_wf :
+  v_sum (mkV (KVar 0) [Const 1%Q]) = RExpr (VSum 0 []) /\
+  evalR (fun _ => 0) (fun _ => 0) (VSum 0 []) = 0 /\
+  np_sum (ev (fun _ => 0) (fun _ => 0) (mkV (KVar 0) [Const 1%Q])) = 1.
+Proof. repeat split; simpl; unfold Q2R; simpl; lra. Qed.
+
+(* [pow_ok] in v_binop_vec: with a literal right element the tree denotes powQ, not Rpower *)
+Example v_binop_pow_literal :
+  v_binop Pow (mkV KExpr [Var "x"%string]) (AVec (mkV KExpr [Const 2%Q])) =
+  RVec (mkV KExpr [Bin Pow (Var "x"%string) (Const 2%Q)]) /\
+  forall rho penv, evalR rho penv (Bin Pow (Var "x"%string) (Const 2%Q)) = rho "x"%string * (rho "x"%string * 1).
+Proof. split; [reflexivity|]. intros. reflexivity. Qed.
+
+(* the trace of a 0x0 matrix is rejected (np.trace would give 0): hence [nrows m <> 0] in m_trace_correct *)
+Example m_trace_empty : m_trace (mkM true []) = RErr ESquare.
+Proof. reflexivity. Qed.
+
+(* rectangularity in m_T_correct: on a ragged object the model pads with Constant 0 *)
+Example m_T_ragged :
+  m_T (mkM false [[Var "a"; Var "b"]; [Var "c"]]%string) =
+  RMat (mkM false [[Var "a"; Var "c"]; [Var "b"; c0e]]%string).
+Proof. reflexivity. Qed.
+
 (* ================================================================== *)
 Print Assumptions v_getitem_correct.
 Print Assumptions v_slice_correct.
